@@ -65,13 +65,6 @@ WITNESSES = [
          old="        for remaining_t in tensors[1:]:\n            remaining_term *= remaining_t\n", new=""),
     dict(id="c14-name-prefix-match", prop="C14", file=S, expect="R14e",
          old="            if obj.name == t_name:\n                tensors.append(obj)  # we", new="            if str(obj.name).startswith(t_name):\n                tensors.append(obj)  # we"),
-    dict(id="c14-accumulate-overwrite", prop="C14", file=S, expect="R14e",
-         old="    for term in expr.terms:\n        for key, contrib in process_term(term, t_name).items():\n            if key not in ret:\n                ret[key] = 0\n            ret[key] += contrib",
-         new="    for term in expr.terms:\n        for key, contrib in process_term(term, t_name).items():\n            ret[key] = contrib"),
-    # the first contribution is stored itself and later updated in place: it is a temporary of the recursion, nobody else sees it
-    dict(id="c14-ok-accumulate-alias-temporary", prop="C14", file=S, expect=None,
-         old="                    key = tuple(sorted(t_block + list(blocks)))\n                    if key not in ret:\n                        ret[key] = 0\n                    ret[key] += contrib",
-         new="                    key = tuple(sorted(t_block + list(blocks)))\n                    if key not in ret:\n                        ret[key] = contrib\n                    else:\n                        ret[key] += contrib"),
     dict(id="c14-min-reverse-lost", prop="C14", file=I, expect="R08g",
          old="            min_symbols.reverse()\n            minimal_indices[idx_key] = min_symbols", new="            minimal_indices[idx_key] = min_symbols"),
     dict(id="c14-lowest-off-by-one", prop="C14", file=I, expect="R08g",
@@ -110,10 +103,6 @@ WITNESSES = [
         ("                for s, new_s in zip(idx_list, additional_indices):\n                    term *= KroneckerDelta(s, new_s)",
          "                for s, new_s in zip(idx_list, additional_indices):\n                    term = KroneckerDelta(s, new_s) * term"),
     ]),
-    # membership test replaced by try/except KeyError
-    dict(id="c14-ok-try-except-accumulate", prop="C14", file=S, expect=None,
-         old="    for term in expr.terms:\n        for key, contrib in process_term(term, t_name).items():\n            if key not in ret:\n                ret[key] = 0\n            ret[key] += contrib",
-         new="    for term in expr.terms:\n        for key, contrib in process_term(term, t_name).items():\n            try:\n                ret[key] += contrib\n            except KeyError:\n                ret[key] = 0 + contrib"),
     # in-place update of the index list instead of rebuilding it
     dict(id="c14-ok-inplace-index-replacement", prop="C14", file=S, expect=None,
          old="                indices = [sub.get(s, s) for s in indices]",
@@ -155,13 +144,6 @@ WITNESSES = [
         ("                    deriv_contrib.copy().permute(*perms).sympy *\n                    factor * x**exponent\n                )",
          "                    deriv_contrib.copy().permute(*perms).sympy *\n                    factor * diff(x**exponent, x)\n                )"),
         ("            symmetrized_deriv_contrib = diff(symmetrized_deriv_contrib, x)\n", ""),
-    ]),
-    # recursion of process_term also for the single occurrence via a helper that merges dicts
-    dict(id="c14-ok-merge-helper", prop="C14", file=S, expect=None, edits=[
-        ("    def process_term(term: e.Term, t_name):",
-         "    def merge_into(collected: dict, key, contrib):\n        if key in collected:\n            collected[key] += contrib\n        else:\n            collected[key] = 0 + contrib\n\n    def process_term(term: e.Term, t_name):"),
-        ("                    key = tuple(sorted(t_block + list(blocks)))\n                    if key not in ret:\n                        ret[key] = 0\n                    ret[key] += contrib",
-         "                    merge_into(ret, tuple(sorted(t_block + list(blocks))), contrib)"),
     ]),
     # ---- call history (R14f): a module-level cache of the tensor symmetry
     # mirrors seeded/C14-5: the key forgets that the minimal indices depend on the target names of the term
@@ -266,16 +248,36 @@ WITNESSES = [
     dict(id="c14-ok-f28-targets-from-counter", prop="C14", file=S, expect=None,
          old="            term.set_target_idx(term.terms[0].target + tuple(indices))",
          new="            once = [s for s, n in term.terms[0]._idx_counter if not n]\n            term.set_target_idx(list(indices) + once)"),
-    # ---- twins of the accumulation witnesses for the tree with the F28 fix (unify_target_idx in the accumulation)
-    dict(id="c14-accumulate-overwrite-f28", prop="C14", file=S, expect="R14e",
+    # ---- accumulation of the contributions (text of the tree with the F28 fix: unify_target_idx in the accumulation)
+    dict(id="c14-accumulate-overwrite", prop="C14", file=S, expect="R14e",
          old="            if key not in ret:\n                ret[key] = 0\n            elif (ret[key].provided_target_idx !=\n                    contrib.provided_target_idx):\n                unify_target_idx(ret[key], contrib)\n            ret[key] += contrib\n    return ret",
          new="            ret[key] = contrib\n    return ret"),
-    dict(id="c14-ok-accumulate-alias-temporary-f28", prop="C14", file=S, expect=None,
+    dict(id="c14-ok-accumulate-alias-temporary", prop="C14", file=S, expect=None,
          old="                    if key not in ret:\n                        ret[key] = 0\n                    elif (ret[key].provided_target_idx !=\n                            contrib.provided_target_idx):\n                        unify_target_idx(ret[key], contrib)\n                    ret[key] += contrib",
          new="                    if key not in ret:\n                        ret[key] = contrib\n                        continue\n                    if (ret[key].provided_target_idx !=\n                            contrib.provided_target_idx):\n                        unify_target_idx(ret[key], contrib)\n                    ret[key] += contrib"),
-    dict(id="c14-ok-try-except-accumulate-f28", prop="C14", file=S, expect=None,
+    dict(id="c14-ok-try-except-accumulate", prop="C14", file=S, expect=None,
          old="            if key not in ret:\n                ret[key] = 0\n            elif (ret[key].provided_target_idx !=\n                    contrib.provided_target_idx):\n                unify_target_idx(ret[key], contrib)\n            ret[key] += contrib\n    return ret",
          new="            try:\n                collected = ret[key]\n            except KeyError:\n                ret[key] = 0 + contrib\n                continue\n"
              "            if collected.provided_target_idx != contrib.provided_target_idx:\n                unify_target_idx(collected, contrib)\n"
              "            collected += contrib\n    return ret"),
+    # membership test replaced by try/except KeyError: see c14-ok-try-except-accumulate; the recursion merges through a helper
+    dict(id="c14-ok-merge-helper", prop="C14", file=S, expect=None, edits=[
+        ("    def process_term(term: e.Term, t_name):",
+         "    def merge_into(collected: dict, key, contrib):\n        if key not in collected:\n            collected[key] = 0 + contrib\n            return\n"
+         "        if collected[key].provided_target_idx != contrib.provided_target_idx:\n            unify_target_idx(collected[key], contrib)\n"
+         "        collected[key] += contrib\n\n    def process_term(term: e.Term, t_name):"),
+        ("                    key = tuple(sorted(t_block + list(blocks)))\n                    if key not in ret:\n                        ret[key] = 0\n                    elif (ret[key].provided_target_idx !=\n                            contrib.provided_target_idx):\n                        unify_target_idx(ret[key], contrib)\n                    ret[key] += contrib",
+         "                    merge_into(ret, tuple(sorted(t_block + list(blocks))), contrib)"),
+    ]),
+    # unify_target_idx fills the missing side only: written as one conditional expression per side
+    dict(id="c14-ok-f28-unify-rewritten", prop="C14", file=S, expect=None,
+         old="        if collected.provided_target_idx is None:\n            collected.set_target_idx(contrib.provided_target_idx)\n"
+             "        elif contrib.provided_target_idx is None:\n            contrib.set_target_idx(collected.provided_target_idx)\n",
+         new="        have, new = collected.provided_target_idx, contrib.provided_target_idx\n"
+             "        if have is None and new is not None:\n            collected.set_target_idx(new)\n"
+             "        if new is None and have is not None:\n            contrib.set_target_idx(have)\n"),
+    # explicit targets always win: overwriting a different explicit set hides the clash that += has to report
+    dict(id="c14-f28-unify-overwrites", prop="C14", file=S, expect="R14c",
+         old="        elif contrib.provided_target_idx is None:\n            contrib.set_target_idx(collected.provided_target_idx)\n",
+         new="        else:\n            contrib.set_target_idx(collected.provided_target_idx)\n"),
 ]
